@@ -341,6 +341,13 @@ def run_ci():
     return dict(ci_configs=cnt)
 
 
+LIVE_OK = {('numdifftools.finite_difference', 'FD_RULES'), ('numdifftools.core', 'FD_RULES'),            # the rule cache (invariant CI)
+           ('numdifftools.fornberg', 'CENTRAL_WEIGHTS_AND_POINTS'),                                         # read-only table
+           ('numdifftools.finite_difference', 'LogRule._difference_functions'),                             # stateless instances
+           ('numdifftools.finite_difference', 'LogJacobianRule._difference_functions'),
+           ('numdifftools.finite_difference', 'LogHessdiagRule._difference_functions'),
+           ('numdifftools.finite_difference', 'LogHessianRule._difference_functions'),
+           ('numdifftools.step_generators', 'one_step')}                                                    # not used by the classes
 MUTABLE_OK = {('numdifftools.finite_difference', 'FD_RULES'), ('numdifftools.core', 'FD_RULES'),
               ('numdifftools.fornberg', 'CENTRAL_WEIGHTS_AND_POINTS')}
 
@@ -372,10 +379,93 @@ def run_scan():
         for nd_ in ast.walk(tree):
             if isinstance(nd_, (ast.Global, ast.Nonlocal)):
                 globals_used.append((mod.__name__, nd_.names))
-    extra = [f for f in found if f not in MUTABLE_OK and f[1] != '__all__']
-    solve.fact('T:module-level-mutable-state-is-only-the-rule-cache', not extra, note=str(found))
-    solve.fact('T:no-class-level-mutable-containers', not class_level, note=str(class_level))
     solve.fact('T:no-global/nonlocal-rebinding', not globals_used, note=str(globals_used))
+    # the same question asked of the LIVE modules (whatever expression created the object): every object reachable from a
+    # module attribute, a class attribute or a function default that can be mutated is shared by all derivative objects
+    # and all threads; only the listed ones may exist
+    import importlib
+    import types
+    live = []
+    IMM = (str, int, float, complex, bool, bytes, type(None), frozenset, np.generic, types.FunctionType, types.BuiltinFunctionType, type,
+           types.ModuleType, staticmethod, classmethod, property, np.ufunc, types.MethodType, types.GetSetDescriptorType,
+           types.MemberDescriptorType, types.WrapperDescriptorType, types.MethodDescriptorType)
+
+    def mutable(v):
+        if isinstance(v, IMM) or type(v).__name__ in ('_Feature', '_tuplegetter'):
+            return False
+        if isinstance(v, tuple):
+            return any(mutable(e) for e in v)
+        return True
+
+    def defaults_of(fn):
+        fn = getattr(fn, '__func__', fn)
+        return list(getattr(fn, '__defaults__', None) or ()) + list((getattr(fn, '__kwdefaults__', None) or {}).values())
+    modlist = [m[nm] for nm in ('fd', 'core', 'lm', 'ex', 'sg', 'mc', 'fb')] + [importlib.import_module('numdifftools.nd_scipy')]
+    for mod in modlist:
+        for k, v in list(vars(mod).items()):
+            if k.startswith('__') or isinstance(v, types.ModuleType):
+                continue
+            if inspect.isclass(v):
+                if v.__module__ != mod.__name__ or hasattr(v, '_fields'):
+                    continue
+                for a, av in list(vars(v).items()):
+                    if a.startswith('__'):
+                        continue
+                    if mutable(av):
+                        live.append((mod.__name__, '%s.%s' % (v.__name__, a), type(av).__name__))
+                    if isinstance(av, (types.FunctionType, staticmethod, classmethod)):
+                        live += [(mod.__name__, '%s.%s(default argument)' % (v.__name__, a), type(d_).__name__) for d_ in defaults_of(av) if mutable(d_)]
+            elif isinstance(v, types.FunctionType):
+                if v.__module__ == mod.__name__:
+                    live += [(mod.__name__, '%s(default argument)' % k, type(d_).__name__) for d_ in defaults_of(v) if mutable(d_)]
+            elif mutable(v) and not (getattr(type(v), '__module__', '') or '').startswith(('numpy', 'scipy')) or isinstance(v, np.ndarray):
+                live.append((mod.__name__, k, type(v).__name__))
+    def used_read_only(name):
+        """every reference to `name` (bare or as an attribute) in the scanned modules is a read-only form: NAME[...] load,
+        `x in NAME`, `for x in NAME`, len(NAME), NAME.get/keys/items/values/index/count(...), or its defining assignment"""
+        RO_METH = ('get', 'keys', 'items', 'values', 'index', 'count', 'copy')
+        for mod in modlist:
+            tree = ast.parse(inspect.getsource(mod))
+            for par in ast.walk(tree):
+                for ch in ast.iter_child_nodes(par):
+                    ch._parent = par
+            for nd_ in ast.walk(tree):
+                is_ref = (isinstance(nd_, ast.Name) and nd_.id == name) or (isinstance(nd_, ast.Attribute) and nd_.attr == name)
+                if not is_ref:
+                    continue
+                par = getattr(nd_, '_parent', None)
+                if isinstance(nd_.ctx, ast.Store):
+                    # the defining assignment at module / class level is fine; any other store is a rebind
+                    if isinstance(par, ast.Assign) and isinstance(getattr(par, '_parent', None), (ast.Module, ast.ClassDef)):
+                        continue
+                    return False
+                if isinstance(par, ast.Subscript) and par.value is nd_ and isinstance(par.ctx, ast.Load):
+                    continue
+                if isinstance(par, ast.Compare) and nd_ in par.comparators and all(isinstance(o, (ast.In, ast.NotIn)) for o in par.ops):
+                    continue
+                if isinstance(par, (ast.For, ast.comprehension)) and par.iter is nd_:
+                    continue
+                if isinstance(par, ast.Call) and nd_ in par.args and isinstance(par.func, ast.Name) and par.func.id in ('len', 'sorted', 'tuple', 'list', 'set', 'frozenset', 'max', 'min', 'sum'):
+                    continue
+                if isinstance(par, ast.Attribute) and par.value is nd_ and par.attr in RO_METH and isinstance(getattr(par, '_parent', None), ast.Call):
+                    continue
+                return False
+        return True
+    constants = [e for e in live if (e[0], e[1]) not in LIVE_OK and e[2] in ('dict', 'list', 'set', 'ndarray', 'tuple') and used_read_only(e[1].split('.')[-1])]
+    live = [e for e in live if e not in constants]
+    unexpected = [e for e in live if (e[0], e[1]) not in LIVE_OK]
+    # (static form of the same scan; a container that is only ever read -- a constant table -- is not state)
+    extra = [f for f in found if f not in MUTABLE_OK and f[1] != '__all__' and not used_read_only(f[1])]
+    solve.fact('T:module-level-mutable-state-is-only-the-rule-cache', not extra, note=str(found))
+    class_level = [c for c in class_level if not all(used_read_only(t) for t in c[2])]
+    solve.fact('T:no-class-level-mutable-containers', not class_level, note=str(class_level))
+    solve.fact('T:live-scan:every-shared-mutable-object-is-a-listed-one', not unexpected, note=str(unexpected[:4]))
+    solve.fact('T:live-scan:saw-the-listed-objects', all(any((e[0], e[1]) == k for e in live) for k in LIVE_OK if k[0] != 'numdifftools.core' or True),
+               note=str([k for k in LIVE_OK if not any((e[0], e[1]) == k for e in live)]))
+    # the read-only table of fornberg is never written
+    from ndvc import cut
+    solve.fact('T:CENTRAL_WEIGHTS_AND_POINTS-is-never-written', not any(cut.attr_stores(m[nm], 'CENTRAL_WEIGHTS_AND_POINTS') for nm in ('fd', 'core', 'lm', 'ex', 'sg', 'mc')) and
+               all(k_ == 'rebind' for k_, _ in cut.attr_stores(m['fb'], 'CENTRAL_WEIGHTS_AND_POINTS')), note=str(cut.attr_stores(m['fb'], 'CENTRAL_WEIGHTS_AND_POINTS')))
     # the class-level _difference_functions instances are stateless
     fd = m['fd']
     ok = all(not vars(getattr(fd, c)._difference_functions) for c in ('LogRule', 'LogJacobianRule', 'LogHessdiagRule', 'LogHessianRule'))
